@@ -102,6 +102,124 @@ def _cmds_of(wire):
     return cmds
 
 
+NESTED_WATCH = ["a", "b", "c", "d", "x", "r"]
+
+
+def nested_programs(rng, thorough):
+    """programs over the real SDK whose top-level instructions contain nested flows.  Each top-level
+    instruction of the main part is one model line t<j> (a scripted command with one result); `inner[j]` is the
+    harness-command log that instruction produces, `effects[j]` its effect on the watched variables."""
+    out = []
+
+    def build(kinds, raiser_at, raiser, env, thread):
+        fdefs, main, inner, effects, results = [], [], [], [], []
+        tag = [0]
+
+        def t():
+            tag[0] += 1
+            return str(tag[0])
+
+        def e(name, *args):
+            return "%s|%s" % (vlib.enc_str(name), vlib.enc_list(list(args)))
+
+        def cond_fn(raise_cmd, verdict):
+            n = "cond%d" % (len(fdefs) + 1)
+            t1, t2, t3 = t(), t(), t()
+            body = ["fn " + n, "    d = hlog " + t1]
+            ilog = [e("hlog", t1)]
+            if raise_cmd:
+                body.append("    %s %s" % (raise_cmd, t2))
+                ilog.append(e(raise_cmd, t2))
+            body += ["    x = hlog " + t3, "    return " + verdict, "end"]
+            ilog.append(e("hlog", t3))
+            fdefs.extend(body)
+            return n, ilog, {"d": t1, "x": t3}
+
+        def plain(var):
+            tg = t()
+            main.append("%s = hlog %s" % (var, tg)); inner.append([e("hlog", tg)]); effects.append({var: tg}); results.append(("C", None))
+
+        for j, kd in enumerate(kinds):
+            is_r = j == raiser_at
+            rc = raiser if is_r else None
+            mark = (lambda r: ("!", r)) if is_r else (lambda r: r)
+            var = "abc"[j % 3]
+            if kd == "plain" and not is_r:
+                plain(var)
+            elif kd in ("plain", "direct"):
+                tg = t()
+                if rc in ("hraisefail", "hwaitfail"):
+                    main.append("%s = %s %s" % (var, rc, tg)); inner.append([e(rc, tg)]); effects.append({var: "false"}); results.append(mark(("E", tg)))
+                else:
+                    c = rc or "hlog"
+                    main.append("%s = %s %s" % (var, c, tg)); inner.append([e(c, tg)])
+                    effects.append({var: "true" if rc else tg}); results.append(mark(("C", None)))
+            elif kd in ("if-true", "if-false"):
+                verdict = "true" if kd == "if-true" else "false"
+                inner_raiser = rc if rc in ("hraise", "hwait") else None
+                n, ilog, eff = cond_fn(inner_raiser, verdict)
+                main.append("if " + n)
+                at = len(main) - 1
+                inner.append(ilog); effects.append(eff); results.append(None)       # patched below
+                tg = t()
+                main.append("    r = hlog " + tg); inner.append([e("hlog", tg)]); effects.append({"r": tg}); results.append(("C", None))
+                main.append("end"); inner.append([]); effects.append({}); results.append(("C", None))
+                res = ("C", None) if verdict == "true" else ("J", None, len(main))
+                results[at] = ("!", res) if (is_r and inner_raiser) else res
+            elif kd == "eval":
+                tg = t()
+                c = rc if rc in ("hraise", "hwait") else "hlog"
+                main.append("%s = eval %s %s" % (var, c, tg)); inner.append([e(c, tg)])
+                effects.append({var: "true" if c != "hlog" else tg}); results.append(mark(("C", None)) if c != "hlog" else ("C", None))
+            elif kd == "alias":
+                tg = t()
+                c = rc if rc in ("hraise", "hwait") else "hlog"
+                main.append("%s = al_%s %s" % (var, c, tg)); inner.append([e(c, tg)])
+                effects.append({var: "true" if c != "hlog" else tg}); results.append(mark(("C", None)) if c != "hlog" else ("C", None))
+        pre = ["alias al_hlog hlog", "alias al_hraise hraise", "alias al_hwait hwait"]
+        text = "\n".join(pre + fdefs + main) + "\n"
+        lines = [{"cmd": "t%d" % j} for j in range(len(main))]
+        cmds = {"t%d" % j: (False, [results[j]]) for j in range(len(main))}
+        cmds[G.ON_ERROR] = (True, [("C", None)])
+        model = G.case_line("P", None, None, FUEL, lines, cmds, {}, "")
+        impl = "\t".join(["N", env, "Y" if thread else "N", vlib.enc_str(text), vlib.enc_list(NESTED_WATCH)])
+        out.append({"text": text, "model": model, "impl": impl, "inner": inner, "effects": effects, "env": env, "thread": thread,
+                    "kinds": ["%s:%s" % (kinds[raiser_at], raiser)]})
+
+    KINDS = ["plain", "if-true", "if-false", "eval", "alias"]
+    # every nested kind as the raiser at every position of a 3-instruction frame, both Env modes
+    for kd in KINDS + ["direct"]:
+        for raiser in ("hraise", "hraisefail"):
+            if raiser == "hraisefail" and kd != "direct":
+                continue
+            for pos in range(3):
+                for other in ("plain", "if-true"):
+                    kinds = [other] * 3
+                    kinds[pos] = kd
+                    for env in ("S", "0"):
+                        build(kinds, pos, raiser, env, False)
+        for raiser in ("hwait", "hwaitfail"):
+            if raiser == "hwaitfail" and kd != "direct":
+                continue
+            for pos in range(3):
+                kinds = ["plain"] * 3
+                kinds[pos] = kd
+                build(kinds, pos, raiser, "S", True)
+    for _ in range(1500 if thorough else 250):
+        n = rng.randint(2, 6)
+        kinds = [rng.choice(KINDS + ["direct"]) for _ in range(n)]
+        pos = rng.randrange(n)
+        thread = rng.random() < 0.25
+        if kinds[pos] == "plain":
+            kinds[pos] = "direct"
+        if thread:
+            raiser = "hwaitfail" if kinds[pos] == "direct" and rng.random() < 0.5 else "hwait"
+        else:
+            raiser = "hraisefail" if kinds[pos] == "direct" and rng.random() < 0.5 else "hraise"
+        build(kinds, pos, raiser, "S" if thread else rng.choice("S0"), thread)
+    return out
+
+
 def run(ck):
     ck.gen_from_source()
     ck.coq_build(["props/C13.vo", "extract/C13_extract.vo"])
@@ -140,6 +258,7 @@ def run(ck):
     # corpus: halt on a goto back-edge of an endless loop; halt raised by on_error; halt on the error path
     base.append(([{"label": ":a", "out": "x", "cmd": "c0"}, {"cmd": "c1"}], {"c0": (True, [("C", "v"), ("C", None)]), "c1": (True, [("L", None, ":a")])}, {}, {}, " ", None))
     base.append(([{"out": "x", "cmd": "c0"}, {"out": "y", "cmd": "c0"}, {"cmd": "c1"}], {"c0": (True, [("E", "m1")]), "c1": (True, [("J", None, 0)]), G.ON_ERROR: (True, [("C", None)])}, {"keep": "init"}, {}, " ", None))
+    base.append(([{"out": "x", "cmd": "c0"}, {"out": "y", "cmd": "c1"}], {"c0": (False, [("E", "m1")]), "c1": (False, [("C", "v")]), G.ON_ERROR: (True, [("C", "true")])}, {"keep": "init"}, {}, " ", None))
     n_corpus = len(base)
     fam = small_family()
     if not thorough:
@@ -166,7 +285,7 @@ def run(ck):
     probe_lines = ["\t".join(["I", G.enc_opt(p[5]), str(PROBE), G.enc_prog(p[0]), G.enc_cmds(p[1]), G.enc_vars(p[2])]) for p in base]
     probe = ck.model(probe_lines)
     stats = {"endless_base_programs": 0, "boundaries_tested": 0, "halt_on_on_error_invocation": 0, "preset_flag": 0,
-             "thread_cases": 0, "thread_halted_midway": 0, "thread_finished_first": 0, "random_marks": 0,
+             "default_env_cases": 0, "nested_cases": 0, "nested_thread_cases": 0, "nested_kinds": {}, "thread_cases": 0, "thread_halted_midway": 0, "thread_finished_first": 0, "random_marks": 0,
              "model_outcome": {}}
     cases = []      # (case line, base index, expected-unhalted-log)
     for b, p in enumerate(base):
@@ -186,6 +305,10 @@ def run(ck):
                 stats["halt_on_on_error_invocation"] += 1
             cases.append((cl("P", p, None, c2), b, ulog, c2))
             stats["boundaries_tested"] += 1
+            # the same boundary with env = None: the command raises the default Env's own flag
+            if b < n_corpus + n_fam or (b + k) % 2 == 0:
+                cases.append((cl("Q", p, None, c2), b, ulog, c2))
+                stats["default_env_cases"] += 1
         if b % 7 == 0:
             cases.append((cl("P", p, 0), b, ulog, p[1]))
             stats["preset_flag"] += 1
@@ -193,8 +316,10 @@ def run(ck):
         lines, cmds, vars_, blanks, sp = G.rand_program(rng, allow_halt=True, cyclic_p=0.4)
         p = (lines, cmds, vars_, blanks, sp, None)
         base.append(p)
-        cases.append((cl("P", p, None), len(base) - 1, None, cmds))
+        cases.append((cl("P" if k % 3 else "Q", p, None), len(base) - 1, None, cmds))
         stats["random_marks"] += 1
+        if k % 3 == 0:
+            stats["default_env_cases"] += 1
 
     c_lines = [c[0] for c in cases]
     m_out = ck.model(c_lines)
@@ -209,10 +334,11 @@ def run(ck):
         key = m[0] + ":" + m[1].split(" ")[0]
         stats["model_outcome"][key] = stats["model_outcome"].get(key, 0) + 1
         ok = G.agree(m, i[:6], cmds) and len(i) == 7
-        if ok and m[0] == "OK" and m[1] == "HALT" and i[6] != "T":
+        if ok and m[0] == "OK" and m[1] == "HALT" and i[6] != ("-" if case.startswith("Q") else "T"):
             ok = False
         if not ok:
-            viol("model (halt flag raised by a command / preset) vs implementation", (p[0], cmds, p[2], p[3], p[4], p[5]), case, m_out[k], i_out[k])
+            viol("model (halt flag raised by a command / preset%s) vs implementation" % (", run with env = None" if case.startswith("Q") else ""),
+                 (p[0], cmds, p[2], p[3], p[4], p[5]), case, m_out[k], i_out[k])
             continue
         if m[0] == "OK" and m[1] == "HALT":
             hl = log_entries(m[4])
@@ -221,6 +347,40 @@ def run(ck):
             if ulog is not None and norm_log(hl) != norm_log(ulog[:len(hl)]):
                 viol("theorem sanity: halted log is not a prefix of the un-halted log (extraction or driver error)",
                      (p[0], cmds, p[2], p[3], p[4], p[5]), case, m_out[k], "un-halted log: " + ";".join(ulog))
+
+    # ---- (d) nested flows with the real SDK ----------------------------------------------------------
+    n_cases = nested_programs(rng, thorough)
+    n_model = ck.model([c["model"] for c in n_cases])
+    n_impl = ck.impl([c["impl"] for c in n_cases], timeout=900)
+    for c, m, i in zip(n_cases, n_model, n_impl):
+        stats["nested_thread_cases" if c["thread"] else "nested_cases"] += 1
+        for kd in c["kinds"]:
+            stats["nested_kinds"][kd] = stats["nested_kinds"].get(kd, 0) + 1
+        mf, f = m.split("\t"), i.split("\t")
+        exp = None
+        if len(mf) == 6 and mf[0] == "OK":
+            ran = [int(vlib.dec_str(e.split("|")[0])[1:]) for e in log_entries(mf[4]) if not e.startswith(vlib.enc_str(G.ON_ERROR) + "|")]
+            elog, evars = [], {}
+            for j in ran:
+                elog += c["inner"][j]
+                evars.update(c["effects"][j])
+            exp = ("OK", ";".join(elog) if elog else "-",
+                   ";".join("%s=%s" % (vlib.enc_str(v), G.enc_opt(evars.get(v))) for v in NESTED_WATCH),
+                   "-" if c["env"] == "0" else ("T" if mf[1] == "HALT" else "F"))
+        got = (f[0], f[4], f[5], f[6]) if len(f) == 7 else None
+        if exp is None or got != exp:
+            found = True
+            if len(ck.violations) < 5:
+                ck.violation({
+                    "kind": "nested flow (condition function / eval / alias / failing command with the SDK's on_error) and the halt flag: the "
+                            "in-flight top-level instruction must complete, no further top-level instruction may start",
+                    "script": c["text"], "env": "Some(flag)" if c["env"] == "S" else "None (default Env)", "second_thread": c["thread"],
+                    "expected(status, harness-command log, watched variables, flag)": exp, "implementation": i,
+                    "model(top-level instructions t0.. as scripted commands)": m,
+                    "wire": c["impl"], "wire_model": c["model"], "theorems": ["C13_prefix", "C13_boundary", "C13_by_command"], "seed": ck.seed,
+                    "replay_cmd": "printf '%s\\n' | .cache/cargo-target/release/c13" % c["impl"].replace("\t", "\\t")})
+        elif len(log_entries(f[4])) >= 2:
+            nontriv.add("N\t" + c["impl"])
 
     # ---- (c) second thread ---------------------------------------------------------------------------
     t_cases = []
